@@ -4,7 +4,7 @@
 #   the existing tests of the touched packages pass with it.  Writes /verif/seeded/<id>-<v>/.
 set -u
 export GOFLAGS=-mod=mod GOPROXY=off GOSUMDB=off
-ID=$1; V=$2; SRC=${VERIF_MUT_SRC:-/tmp/mut}/$ID/$V; WT=/tmp/wt-verify-$ID-$V; OUT=/verif/seeded/$ID-$V
+ID=$1; V=$2; SRC=${VERIF_MUT_SRC:-/tmp/mut}/$ID/$V; WT=/tmp/wt-verify-$ID-$V; OV=${VERIF_MUT_OUTV:-$V}; OUT=/verif/seeded/$ID-$OV
 [ -f $SRC/patch.diff ] || { echo "no patch for $ID/$V"; exit 1; }
 rm -rf $WT; git -C /repo worktree add -q --detach $WT HEAD || exit 1
 cd $WT
@@ -33,7 +33,7 @@ if [ $applies = 1 ]; then
   pkgtests=$(go test -vet=off -count=1 -timeout 300s $TOUCHED 2>&1 | grep -v 'no test files' | tail -4 | tr '\n' ';')
 fi
 mkdir -p $OUT; cp $SRC/patch.diff $OUT/; cp $DEMOS $OUT/ 2>/dev/null; cp $SRC/README.md $OUT/README.md
-python3 - "$ID" "$V" "$DEST" "$TESTS" "$clean_ok" "$applies" "$build_ok" "$mut_fail" "$pkgtests" <<'PY'
+python3 - "$ID" "$OV" "$DEST" "$TESTS" "$clean_ok" "$applies" "$build_ok" "$mut_fail" "$pkgtests" <<'PY'
 import json,sys
 ID,V,DEST,TESTS,clean_ok,applies,build_ok,mut_fail,pkgtests=sys.argv[1:]
 meta={"property":ID,"variant":V,"demo_destination":DEST,"demo_tests":TESTS,
